@@ -17,14 +17,18 @@ def open_findings():
 
 BOUNDS = {
     'quick': 'invoke / reference_wrapper / bind_front / not_fn / function_ref: every listed call form once, all int arguments and captured states symbolic (full 32-bit range); '
-             'inplace_function<int(int),16>: two objects, every operation (14 codes) from every abstract pre-state (empty | one of 6 target kinds: empty class, function pointer, '
-             'trivially copyable 8/16 bytes, non-trivially copyable 8/16 bytes; captured state symbolic) plus histories of 3 symbolic operations from two empty wrappers',
-    'thorough': 'same call forms; inplace_function capacities 16 and 32 (10 target kinds, captures of 8..32 bytes), step from every state, histories of 5 (capacity 16) and 4 (capacity 32) symbolic operations',
+             'inplace_function<int(int),16>: two wrapper objects in blocks of symbolic bytes, each brought into an arbitrary state (empty via default / nullptr constructor, or one of 6 target kinds: empty class, function pointer, '
+             'trivially copyable 8/16 bytes, non-trivially copyable 8/16 bytes, via the rvalue / lvalue constructor, captured state symbolic), then one operation: 14 operation codes x object indices enumerated '
+             '(quick: first operand is object 0; both objects have symbolic pre-states, so the other half is the mirror image), then both are called and destroyed; '
+             'histories of 3 symbolic operations (10 codes with fixed operands: assign small / capacity-filling trivial / non-trivial callable, copy, move, swap, reset, call) from two empty wrappers',
+    'thorough': 'same call forms; inplace_function capacities 16 and 32 (6 / 10 target kinds, captures of 8..32 bytes), one operation from every state for all object index combinations (36 queries per capacity), '
+                'histories of 5 (capacity 16) and 4 (capacity 32) symbolic operations',
 }
 ASSUMPTIONS = [
     'C20: value-category / result-type preservation is type-level: covered only by static_asserts in kernel.cpp (compile-time, not solver evidence); what the solver decides is the run-time trace of it: '
     'which operator() overload (&, const&, &&, const&&) and which parameter overload (int&, int const&, int&&) of an instrumented target ran',
     'C20: bind_front is only exercised with bound arguments passed as prvalues (etl::bind_front does not compile with lvalue bound arguments or with no bound argument: unwrap_ref_decay / tuple<> are ill-formed - compile-time defects, reported, not solver findings)',
+    'C20: inplace_function step queries: operation code and operand indices are enumerated (one query each); a fully symbolic (code, i, j) query did not finish (symbolic object pointers: > 900 s, 4 GB)',
     'C20: self move assignment of inplace_function: std leaves the state unspecified; only a valid state (empty, or still the same target) is required',
     'C20: the bad_function_call path is observed through TETL_ENABLE_CUSTOM_ASSERT_HANDLER (etl::raise -> assert_handler -> driver); a call through an empty wrapper ends the path there',
     'C20: function_ref / inplace_function / not_fn<f>() have no std counterpart in C++20 (libstdc++ 12): explicit expected call log instead of std',
